@@ -246,6 +246,8 @@ class ISock:
     def shutdown(self, how):
         self.S.before('shut')
         self.S.emit('shut')
+        if getattr(self, 'shutdown_fails', False):        # the peer has already reset the connection
+            raise OSError(107, 'Transport endpoint is not connected')
 
     def close(self):
         self.S.before('cls')
